@@ -23,7 +23,12 @@ type C08Rule struct {
 	NoSal bool `json:"nosal,omitempty"`
 	// Zeros: leading zeros in the spelling of the salience
 	Zeros int `json:"zeros,omitempty"`
+	// LongDesc: the description is followed by that many further characters (one source line
+	// of more than 64 KB)
+	LongDesc int `json:"long_desc,omitempty"`
 }
+
+func (r C08Rule) desc() string { return r.Desc + strings.Repeat("x", r.LongDesc) }
 
 type C08Op struct {
 	Kind   string    `json:"kind"` // full | incr | remove | refull / reincr (the byte-identical text of the last full / incremental build again)
@@ -59,7 +64,7 @@ func c08Text(rules []C08Rule, tagBase int64) (string, map[string]int64) {
 		if r.NoSal {
 			sal = ""
 		}
-		fmt.Fprintf(&b, "rule %q %q%s\nbegin\n  S(@name)\n  info(@name, @sal, @desc)\n  return %d\nend\n", r.Name, r.Desc, sal, tag)
+		fmt.Fprintf(&b, "rule %q %q%s\nbegin\n  S(@name)\n  info(@name, @sal, @desc)\n  return %d\nend\n", r.Name, r.desc(), sal, tag)
 	}
 	return b.String(), tags
 }
@@ -78,6 +83,9 @@ func genC08Rules(t *rapid.T, pfx string, step int) []C08Rule {
 			r.NoSal, r.Sal = true, 0
 		} else if pct(t, fmt.Sprintf("%szeros%d", pfx, i), 12) {
 			r.Zeros = uni(t, fmt.Sprintf("%snzeros%d", pfx, i), 1, 2)
+		}
+		if pct(t, fmt.Sprintf("%slongdesc%d", pfx, i), 1) {
+			r.LongDesc = uni(t, fmt.Sprintf("%slongdesclen%d", pfx, i), 66000, 140000)
 		}
 		out = append(out, r)
 	}
@@ -157,7 +165,7 @@ func init() {
 					if err == nil {
 						model = map[string]c08Entry{}
 						for _, r := range lastFullRules {
-							model[r.Name] = c08Entry{r.Sal, r.Desc, tags[r.Name]}
+							model[r.Name] = c08Entry{r.Sal, r.desc(), tags[r.Name]}
 						}
 					}
 				case "reincr":
@@ -173,7 +181,7 @@ func init() {
 					err, pan = guard(func() error { return rb.BuildRuleWithIncremental(text) })
 					if err == nil {
 						for _, r := range lastIncrRules {
-							model[r.Name] = c08Entry{r.Sal, r.Desc, tags[r.Name]}
+							model[r.Name] = c08Entry{r.Sal, r.desc(), tags[r.Name]}
 						}
 					}
 				case "full":
@@ -184,7 +192,7 @@ func init() {
 					if err == nil {
 						model = map[string]c08Entry{}
 						for _, r := range op.Rules {
-							model[r.Name] = c08Entry{r.Sal, r.Desc, tags[r.Name]}
+							model[r.Name] = c08Entry{r.Sal, r.desc(), tags[r.Name]}
 						}
 					}
 				case "incr":
@@ -222,7 +230,7 @@ func init() {
 					err, pan = guard(func() error { return rb.BuildRuleWithIncremental(text) })
 					if err == nil {
 						for _, r := range op.Rules {
-							model[r.Name] = c08Entry{r.Sal, r.Desc, tags[r.Name]}
+							model[r.Name] = c08Entry{r.Sal, r.desc(), tags[r.Name]}
 						}
 					}
 				case "badincr", "badfull":
